@@ -30,12 +30,24 @@ def load():
         p = os.path.join(env.VERIF, 'known_findings.json')
         with open(p) as f:
             _loaded = json.load(f)['findings']
+        # fragments written while a check is being developed; merged into known_findings.json by the lead
+        d = os.path.join(env.VERIF, 'known_findings.d')
+        if os.path.isdir(d):
+            for name in sorted(os.listdir(d)):
+                if name.endswith('.json'):
+                    with open(os.path.join(d, name)) as f:
+                        _loaded = _loaded + json.load(f)['findings']
     return _loaded
 
 
 def classify(prop, v):
     """Return the finding id whose classifier recognises violation v, else None."""
     from . import classifiers  # noqa: F401  (registers)
+    import importlib
+    try:
+        importlib.import_module('tdv.props.' + prop.lower())
+    except Exception:
+        pass
     for e in load():
         if e.get('status') != 'known' or e['property'] != prop:
             continue
